@@ -243,6 +243,10 @@ theorem inv_step (st0 st : St) (r : Req) (h : Inv st0 st) : Inv st0 (step cfg st
     by_cases hstop : (unseen st.db r.key && maximumIsReached st) = true
     · simp only [hstop, if_true]; exact h
     · simp only [hstop, Bool.false_eq_true, if_false]
+      by_cases hraise : r.raises = true
+      · simp only [hraise, if_true]
+        exact ⟨h.keys, h.maximum_fixed, h.counter_ge, h.counter_tracks_entries, h.counter_le_max, h.prefix_keys⟩
+      simp only [hraise, Bool.false_eq_true, if_false]
       by_cases hnan : (r.isNan && cfg.stopIfNan) = true
       · simp only [hnan, if_true]
         exact ⟨h.keys, h.maximum_fixed, h.counter_ge, h.counter_tracks_entries, h.counter_le_max, h.prefix_keys⟩
@@ -293,6 +297,7 @@ theorem inv_run (st0 : St) (rs : List Req) (st : St) (h : Inv st0 st) :
       cases o with
       | served => exact ih st' hs
       | computed => exact ih st' hs
+      | raised => exact ih st' hs
       | stop t => exact hs
 
 theorem inv_start (db : List Entry) (hk : KeysNodup db) (maxIter previous : Nat) (reset : Bool)
@@ -343,9 +348,10 @@ def ValueCallsRecorded (st : St) : Prop :=
 /-- A request keeps "value calls happen at recorded points", unless it stops on a NaN (the only
     case where an original value function ran at a point that is then not recorded). -/
 theorem valueCalls_step (st : St) (r : Req) (h : ValueCallsRecorded st)
-    (hnan : (step cfg st r).2 ≠ .stop .functionIsNan) :
+    (hnan : (step cfg st r).2 ≠ .stop .functionIsNan) (hraise : r.raises = false) :
     ValueCallsRecorded (step cfg st r).1 := by
   unfold step at hnan ⊢
+  simp only [hraise, Bool.false_eq_true, if_false] at hnan ⊢
   by_cases hrec : recorded st.db r.key (r.name, r.kind) = true
   · simp only [hrec, if_true]; exact h
   · simp only [hrec, Bool.false_eq_true, if_false] at hnan ⊢
@@ -391,7 +397,7 @@ theorem valueCalls_step (st : St) (r : Req) (h : ValueCallsRecorded st)
     called at points that are recorded in the database** — hence, with the budget theorem, at no
     more than `N` new distinct points (a NaN stop adds the single unrecorded NaN point). -/
 theorem valueCalls_run (st : St) (rs : List Req) (h : ValueCallsRecorded st)
-    (hnan : (runUntilStop cfg st rs).2 ≠ some .functionIsNan) :
+    (hnan : (runUntilStop cfg st rs).2 ≠ some .functionIsNan) (hraise : ∀ r ∈ rs, r.raises = false) :
     ValueCallsRecorded (runUntilStop cfg st rs).1 := by
   induction rs generalizing st with
   | nil => exact h
@@ -400,11 +406,13 @@ theorem valueCalls_run (st : St) (rs : List Req) (h : ValueCallsRecorded st)
     cases hstep : step cfg st r with
     | mk st' o =>
       rw [hstep] at hnan
-      have hs := valueCalls_step cfg st r h
+      have hs := fun hne => valueCalls_step cfg st r h hne (hraise r (by simp))
       rw [hstep] at hs
+      have hraise' : ∀ r' ∈ rs, r'.raises = false := fun r' hr' => hraise r' (List.mem_cons_of_mem _ hr')
       cases o with
-      | served => exact ih st' (hs (by simp)) hnan
-      | computed => exact ih st' (hs (by simp)) hnan
+      | served => exact ih st' (hs (by simp)) hnan hraise'
+      | computed => exact ih st' (hs (by simp)) hnan hraise'
+      | raised => exact ih st' (hs (by simp)) hnan hraise'
       | stop t =>
         apply hs
         intro hc
@@ -455,6 +463,7 @@ theorem runUntilStop_append (cfg : Cfg) (st st1 : St) (rs1 rs2 : List Req)
       cases o with
       | served => exact ih st' h
       | computed => exact ih st' h
+      | raised => exact ih st' h
       | stop t => simp at h
 
 theorem doeRequests_cons (fnames : List String) (s : Key) (ss : List Key) :
@@ -559,8 +568,8 @@ theorem doe_each_distinct_once_in_generation_order (fnames : List String) (hne :
 /-! ### Non-vacuity -/
 
 example :
-    let rs : List Req := [⟨"f", .value, [1], false, false, none⟩, ⟨"g", .value, [1], false, false, none⟩,
-      ⟨"f", .value, [2], false, false, none⟩, ⟨"f", .value, [3], false, false, none⟩]
+    let rs : List Req := [⟨"f", .value, [1], false, false, false, none⟩, ⟨"g", .value, [1], false, false, false, none⟩,
+      ⟨"f", .value, [2], false, false, false, none⟩, ⟨"f", .value, [3], false, false, false, none⟩]
     let r := runUntilStop {} (start [] 2 0 true) rs
     r.2 = some Term.maxIter ∧ nonEmptyCount r.1.db = 2 ∧ r.1.current = 2 ∧ r.1.calls.length = 3 := by
   decide +kernel
